@@ -247,6 +247,14 @@ func stringChains(v ssa.Value, maxLen int) []chainResult {
 				}
 			}
 			if arg != nil && name != "" {
+				// a method of a transformer object: which constructor made the object (cases.Fold() vs cases.Lower())
+				if len(args) > 0 && !isStringType(args[0].Type()) {
+					if mk, ok := args[0].(*ssa.Call); ok {
+						if mn := ssaCalleeName(&mk.Call); mn != "" {
+							name = name + "<" + mn[strings.LastIndex(mn, "/")+1:] + ">"
+						}
+					}
+				}
 				walk(arg, append(steps, chainStep{name, x.Pos()}), seen)
 				return
 			}
